@@ -1536,6 +1536,10 @@ class AdapterIndex:
         match = adapter.match_to(affix)
         if match is None:
             return None
+        if match.rstop - match.rstart != len(affix):
+            # The adapter aligns to only a part of this affix. The caller would report
+            # the whole affix as removed; the shorter affix is looked up in its own turn.
+            return None
         return adapter, match.errors, match.score
 
 
